@@ -109,6 +109,7 @@ func runC13(c *Ctx) {
 		}
 	}
 	cases = append(cases, cs{im: fibImage(rng), pars: []*t81par{randPar(rng, 1, 1, 0), randPar(rng, 1, 1, 2)}})
+	mutationTie(c)
 	ParallelFor(len(cases), c.Work, func(i int) {
 		k := cases[i]
 		px := k.im.Bytes()
@@ -367,4 +368,109 @@ func replayC13(c *Ctx) {
 			godecOracle(c, im, px, par)
 		}
 	}
+}
+
+// mutationTie: correspondence only. Valid encoder streams are damaged (byte flips in the
+// headers or the scan, truncation, a duplicated or foreign frame header, an over-subscribed
+// or short DHT, a selector nibble, a dropped segment) and both decoders are compared with their
+// models on the result class (ok with payload / err / panic).
+func mutationTie(c *Ctx) {
+	rng := c.Rng.Fork()
+	n := c.N(240, 4000)
+	type mc struct {
+		stream []byte
+		what   string
+	}
+	cases := make([]mc, n)
+	for i := range cases {
+		p := rng.Range(2, 16)
+		comps := rng.Pick(1, 3)
+		w, h := rng.Range(1, 6), rng.Range(1, 6)
+		im := fill(rng, w, h, comps, p, contentKinds[rng.Intn(len(contentKinds))])
+		pred := rng.Range(1, 7)
+		s, class, _ := goEncode(pred, im, im.Bytes())
+		if class != "ok" {
+			continue
+		}
+		s = append([]byte{}, s...)
+		// segment offsets: SOI(2) APP0(18) SOF3 DHT SOS
+		sof := 20
+		sofLen := 2 + (int(s[sof+2])<<8 | int(s[sof+3]))
+		dht := sof + sofLen
+		dhtLen := 2 + (int(s[dht+2])<<8 | int(s[dht+3]))
+		sos := dht + dhtLen
+		sosLen := 2 + (int(s[sos+2])<<8 | int(s[sos+3]))
+		scan := sos + sosLen
+		what := ""
+		switch rng.Intn(12) {
+		case 0:
+			what = "flip-header"
+			j := rng.Range(2, scan-1)
+			s[j] ^= byte(1 << uint(rng.Intn(8)))
+		case 1:
+			what = "flip-scan"
+			if scan < len(s)-2 {
+				j := rng.Range(scan, len(s)-3)
+				s[j] ^= byte(1 << uint(rng.Intn(8)))
+			}
+		case 2:
+			what = "truncate"
+			s = s[:rng.Range(0, len(s))]
+		case 3:
+			what = "second-sof3"
+			d := append([]byte{}, s[sof:dht]...)
+			s = append(append(append([]byte{}, s[:dht]...), d...), s[dht:]...)
+		case 4:
+			what = "foreign-sof"
+			m := []byte{0xC0, 0xC1, 0xC2, 0xC5, 0xC7, 0xC9, 0xCB, 0xCD, 0xCF, 0xF7, 0xC8, 0xCC}[rng.Intn(12)]
+			if rng.Bool() {
+				s[sof+1] = m
+			} else { // an extra foreign frame header before ours
+				d := append([]byte{}, s[sof:dht]...)
+				d[1] = m
+				s = append(append(append([]byte{}, s[:sof]...), d...), s[sof:]...)
+			}
+		case 5:
+			what = "dht-counts"
+			s[dht+5+rng.Intn(16)] = byte(rng.Intn(256))
+		case 6:
+			what = "dht-oversubscribed"
+			s[dht+5] = byte(3 + rng.Intn(5)) // > 2 codes of length 1
+		case 7:
+			what = "dht-class-id"
+			s[dht+4] = byte(rng.Intn(256))
+		case 8:
+			what = "sos-selector"
+			s[sos+6] = byte(rng.Intn(256))
+		case 9:
+			what = "drop-dht"
+			s = append(append([]byte{}, s[:dht]...), s[sos:]...)
+		case 10:
+			what = "sos-first"
+			d := append([]byte{}, s[sos:scan]...)
+			s = append(append(append([]byte{}, s[:sof]...), d...), s[sof:]...)
+		default:
+			what = "dht-symbol"
+			if dhtLen > 21 {
+				s[dht+21+rng.Intn(dhtLen-21)] = byte(rng.Intn(256))
+			}
+		}
+		cases[i] = mc{s, what}
+	}
+	ParallelFor(n, c.Work, func(i int) {
+		k := cases[i]
+		if k.stream == nil {
+			return
+		}
+		in := map[string]interface{}{"stream": Hex(k.stream), "mutation": k.what}
+		for _, sv1 := range []bool{false, true} {
+			op, codec := "jll_decode", "jpegll"
+			if sv1 {
+				op, codec = "sv1_decode", "sv1"
+			}
+			dec := goDecode(sv1, k.stream)
+			c.R.Case(fmt.Sprintf("mut:%d:%s", i, codec), true, "mutation."+k.what, "mutation.class."+dec.Class)
+			c.CorrEq("decode_mutated", codec+":mutated:"+k.what, c.M.Call(op, Hex(k.stream)), dec.String(), in)
+		}
+	})
 }
